@@ -98,7 +98,7 @@ def api_case(ctx, cls, ts, st, en, scale, st2=None, en2=None):
     exp = brute(tns, sst, sen)
     if cls == "TsGroup":
         # member-wise; explicit group support so that members are not pre-restricted
-        full = iset([min(ts + st) - 1], [max(ts + en) + 1], scale) if (ts or st) else None
+        full = iset([min(ts + st) - 1], [max(ts + en) + 1], scale) if (ts or st) else iset([-1], [1], scale)
         g = nap.TsGroup({3: nap.Ts(farr(ts, scale)), 7: nap.Ts(farr(ts[::2], scale))}, time_support=full,
                         metadata={"lab": ["p", "q"]})
         r = g.restrict(ep)
